@@ -98,7 +98,15 @@ fn over_the_wire(r: &mut hvcommon::report::Report, tree: &staticlab::Tree, root:
         let port = hvcommon::net::free_port("127.0.0.1");
         let addr: std::net::SocketAddr = format!("127.0.0.1:{}", port).parse().unwrap();
         let (tx, rx) = std::sync::mpsc::channel();
-        let app: humphrey::App<()> = humphrey::App::new_with_config(2, ()).with_path_aware_route("/d/*", serve_dir(root)).with_route("/*", serve_as_file_path(root)).with_connection_timeout(timeout).with_shutdown(rx);
+        // a second virtual host with its own directory, holding files of the same relative names and other contents
+        let root2: &'static str = Box::leak(format!("{}-host2", root.trim_end_matches('/')).into_boxed_str());
+        let twins: Vec<(String, Vec<u8>)> = tree.files.iter().filter(|f| f.0.is_ascii() && !f.0.contains(['?', '#', ' ', '%', ':']) && !f.0.contains("..") && f.1.len() < 4096).take(4).map(|f| (f.0.clone(), format!("HV06-HOST2|{}|{}", seed, f.0).into_bytes())).collect();
+        for (rel, content) in &twins {
+            let p = std::path::Path::new(root2).join(rel);
+            let _ = std::fs::create_dir_all(p.parent().unwrap());
+            let _ = std::fs::write(&p, content);
+        }
+        let app: humphrey::App<()> = humphrey::App::new_with_config(2, ()).with_path_aware_route("/d/*", serve_dir(root)).with_route("/*", serve_as_file_path(root)).with_host("other.hv", humphrey::SubApp::new().with_path_aware_route("/d/*", serve_dir(root2))).with_connection_timeout(timeout).with_shutdown(rx);
         std::thread::spawn(move || {
             let _ = app.run(addr);
         });
@@ -152,6 +160,54 @@ fn over_the_wire(r: &mut hvcommon::report::Report, tree: &staticlab::Tree, root:
                     Ok(Some(m)) => r.violation("C06/wire:not-intact", format!("{}: status {}, {} body bytes, content {}", what, m.status(), m.body.len(), if m.body == *content { "equal" } else { "differs" }), ex, replay),
                     Ok(None) => r.violation("C06/wire:not-intact", format!("{}: no response", what), ex, replay),
                     Err(e) => r.violation("C06/wire:not-intact", format!("{}: response incomplete: {}", what, e.chars().take(120).collect::<String>()), ex, replay),
+                }
+            }
+        }
+        // one keep-alive connection carrying requests for both hosts in turn (a forwarder's pooled connection): each request
+        // is served from the directory of the host IT names (seeded C06-M)
+        if timeout.is_none() {
+            for (rel, content2) in &twins {
+                let content1 = match tree.files.iter().find(|f| &f.0 == rel) {
+                    Some(f) => &f.1,
+                    None => continue,
+                };
+                let mut c = match Conn::open(addr) {
+                    Ok(c) => c,
+                    Err(_) => break,
+                };
+                for (i, host) in ["hv", "other.hv", "hv", "other.hv"].iter().enumerate() {
+                    r.eval();
+                    r.count("over_the_wire_requests", 1);
+                    let last = i == 3;
+                    if c.s.write_all(format!("GET /d/{} HTTP/1.1\r\nHost: {}\r\nConnection: {}\r\n\r\n", rel, host, if last { "close" } else { "keep-alive" }).as_bytes()).is_err() {
+                        r.violation("C06/wire:not-served", format!("keep-alive connection lost before request #{} (Host: {}) for /d/{}", i, host, rel), J::s(rel), vec!["c06".to_string(), "--seed".into(), seed.to_string()]);
+                        break;
+                    }
+                    let (want, other) = if *host == "hv" { (content1, content2) } else { (content2, content1) };
+                    let what = format!("request #{} on one keep-alive connection, GET /d/{} with Host: {} (hosts alternate hv, other.hv)", i, rel, host);
+                    match c.read_response(Duration::from_secs(10)) {
+                        Ok(Some(m)) if m.status() == 200 && m.body == *want => {
+                            r.count("over_the_wire_files_intact", 1);
+                            r.count("over_the_wire_host_alternations_served_from_own_directory", 1);
+                            hvcommon::httplab::eat_body_crlf(&mut c);
+                        }
+                        Ok(Some(m)) if m.body == *other => {
+                            r.violation("C06/wire:foreign-bytes", format!("{}: answered with the file of the same name from the OTHER host's directory, i.e. bytes from outside this handler's directory", what), J::s(rel), vec!["c06".to_string(), "--seed".into(), seed.to_string()]);
+                            break;
+                        }
+                        Ok(Some(m)) => {
+                            r.violation("C06/wire:not-intact", format!("{}: status {}, {} body bytes", what, m.status(), m.body.len()), J::s(rel), vec!["c06".to_string(), "--seed".into(), seed.to_string()]);
+                            break;
+                        }
+                        Ok(None) => {
+                            r.violation("C06/wire:not-served", format!("{}: no response (eof={})", what, c.eof), J::s(rel), vec!["c06".to_string(), "--seed".into(), seed.to_string()]);
+                            break;
+                        }
+                        Err(e) => {
+                            r.violation("C06/wire:not-intact", format!("{}: response incomplete: {}", what, e.chars().take(120).collect::<String>()), J::s(rel), vec!["c06".to_string(), "--seed".into(), seed.to_string()]);
+                            break;
+                        }
+                    }
                 }
             }
         }
